@@ -85,22 +85,33 @@ func c02Exec(op string) (string, *Violation) {
 	s.FilterNode = func(n *osm.Node) bool { jitter(tseed, int64(n.ID)); return true }
 	s.FilterWay = func(w *osm.Way) bool { jitter(tseed, int64(w.ID)); return true }
 	s.FilterRelation = func(r *osm.Relation) bool { jitter(tseed, int64(r.ID)); return true }
-	h, herr := s.Header()
+	var h *osmpbf.Header
 	var objs []osm.Object
 	var snaps []string
 	var serr error
-	if herr == nil {
-		for s.Scan() {
-			o := s.Object()
-			objs = append(objs, o)
-			snaps = append(snaps, pObject(o))
-			if rng.Chance(5) {
-				time.Sleep(time.Duration(rng.Intn(200)) * time.Microsecond)
+	done := make(chan struct{})
+	go func() {
+		defer close(done)
+		var herr error
+		h, herr = s.Header()
+		if herr == nil {
+			for s.Scan() {
+				o := s.Object()
+				objs = append(objs, o)
+				snaps = append(snaps, pObject(o))
+				if rng.Chance(5) {
+					time.Sleep(time.Duration(rng.Intn(200)) * time.Microsecond)
+				}
 			}
 		}
+		serr = s.Err()
+		s.Close()
+	}()
+	select {
+	case <-done:
+	case <-time.After(30 * time.Second):
+		return "HANG", &Violation{Signature: "pbf-hang", Text: fmt.Sprintf("the scan with %d decoders does not finish (30s)", procs)}
 	}
-	serr = s.Err()
-	s.Close()
 	line := pScanLine(h, objs, serr)
 	if serr != nil {
 		return line, &Violation{Signature: "pbf-valid-file-error", Text: "scanning a valid PBF file ends in an error: " + serr.Error()}
